@@ -77,7 +77,8 @@ class DictStorage(QueueStorage):
         return new_attempts
 
     def set_recipients_delivered(self, id, rcpt_indexes):
-        self._remove_delivered_rcpts(self.env_db[id], rcpt_indexes)
+        self._remove_delivered_rcpts(self.env_db[id],
+                                     sorted(rcpt_indexes, reverse=True))
         log.update_meta(id, delivered_indexes=rcpt_indexes)
 
     def load(self):
